@@ -11,7 +11,9 @@
 #include <complex>
 #include <cstdint>
 #include <cstring>
+#include <array>
 #include <functional>
+#include <iterator>
 #include <type_traits>
 
 #ifndef C12_MAXD
@@ -22,6 +24,13 @@
 // build time and defines C12_TPTR_SLICED=1 when it does compile.
 #ifndef C12_TPTR_SLICED
 #define C12_TPTR_SLICED 0
+#endif
+#ifndef C12_TPTR_CONST_ITER
+#define C12_TPTR_CONST_ITER 0
+#endif
+// the wrapper targets Wi/We/Wa of conversions are instantiated for ranks up to this one (compile time)
+#ifndef C12_CONV_MAXD
+#define C12_CONV_MAXD 3
 #endif
 
 namespace c12 {
@@ -38,6 +47,27 @@ using Z = std::complex<double>;
 using CD = multi::blas::complex_dummy<double>;        // {double real; double imag;} of blas/numeric.hpp
 using Q = long long;                                  // 8-byte reinterpretation target
 static_assert(sizeof(Z) == 16 && sizeof(CD) == 16 && sizeof(Q) == 8, "sizes");
+
+// ---- targets of conversion-construction / conversion-assignment (array.hpp) ----
+// Wi<T>: implicitly constructible from T (and therefore assignable from T);
+// We<T>: ONLY explicitly constructible from T, not assignable from T (struct with an explicit constructor);
+// Wa<T>: explicitly constructible and assignable from T, not implicitly convertible (like std::complex<float> from
+//        std::complex<double>).  All three hold the T they were made from, so the converted value is observable.
+template<class T> struct Wi { T v; Wi() = default; Wi(T const& x) : v(x) {} };                    // NOLINT(google-explicit-constructor)
+template<class T> struct We { T v; We() = default; explicit We(T const& x) : v(x) {} };
+template<class T> struct Wa { T v; Wa() = default; explicit Wa(T const& x) : v(x) {} Wa& operator=(T const& x) { v = x; return *this; } };
+using ZF = std::complex<float>;                        // explicit conversion from std::complex<double>
+static_assert(!std::is_convertible_v<Z, ZF> && std::is_constructible_v<ZF, Z> && std::is_assignable_v<ZF&, Z>, "complex<double> -> complex<float>");
+static_assert(!std::is_convertible_v<int, We<int>> && std::is_constructible_v<We<int>, int> && !std::is_assignable_v<We<int>&, int>, "We");
+static_assert(!std::is_convertible_v<int, Wa<int>> && std::is_constructible_v<Wa<int>, int> && std::is_assignable_v<Wa<int>&, int>, "Wa");
+
+// An array of an element type that is only explicitly constructible (and not assignable) from the source's
+// cannot be constructed from a VIEW at the pinned commit (array.hpp: the explicit const_subarray constructor
+// delegates to one constrained on is_assignable) -- hard error, not SFINAE.  The check probes this at build time
+// and defines C12_EXPL_FROM_VIEW=1 when it compiles.
+#ifndef C12_EXPL_FROM_VIEW
+#define C12_EXPL_FROM_VIEW 0
+#endif
 
 struct Ctx {
 	char const* root = nullptr;   // data_elements() of the root array, as bytes
@@ -91,10 +121,77 @@ struct Any {
 	// (has_addr = false when the access yields a prvalue)
 	virtual void probe(std::vector<idx_t> const& idx, bool& has_addr, long& off, std::string& val) = 0;
 	virtual bool write(std::vector<idx_t> const& idx, long n) = 0;       // v[i]...[k] = 7000000 + n (int/double lvalues)
-	virtual void convert(std::ostream& os, std::string const& id, int step) = 0;   // array constructed from the view
+	// array (or static_array) constructed from / assigned from the view, an array, an array_ref, an iterator pair or the
+	// flat range made from the view; kind = <source><category>.<how>.<target>, see PH::convert
+	virtual void convert(std::ostream& os, std::string const& id, int step, std::string const& kind) = 0;
+	// iterator walk: where = lead | row <i> | flat, then a start token and iterator operations, see PH::walk
+	virtual void walk(std::ostream& os, std::string const& id, int step, int wn, std::vector<std::string> const& toks) = 0;
 };
 
+// ---- text of what an expression designates ----
+// element: "<byte offset from the root>/<value>" ("-/<value>" when the access yields a prvalue)
+template<class T, class Get> std::string elem_text(Get&& get) {
+	using R = decltype(get());
+	if constexpr(std::is_lvalue_reference_v<R>) {
+		auto& r = get();
+		long const off = reinterpret_cast<char const*>(&r) - ctx().root;  // NOLINT
+		if(off >= 0 && static_cast<std::size_t>(off) + sizeof(T) <= ctx().nbytes) { return std::to_string(off) + "/" + show<T>(r); }
+		return std::to_string(off) + "/oob";
+	} else {
+		T r = get();
+		return "-/" + show<T>(r);
+	}
+}
+template<class T, int K, int R, class S> std::string corner_text(S&& s, std::vector<idx_t> const& x) {
+	if constexpr(K == R - 1) {
+		return elem_text<T>([&]() -> decltype(auto) { return s[x[K]]; });
+	} else {
+		auto&& sub = s[x[K]];
+		return corner_text<T, K + 1, R>(sub, x);
+	}
+}
+// view of rank R: its extensions and both corner elements
+template<class T, int R, class S> std::string view_text(S&& s) {
+	auto ex = s.extensions().apply([](auto... e) { return std::vector<std::pair<idx_t, idx_t>>{{e.first(), e.last()}...}; });
+	std::string out = "x=";
+	bool empty = false;
+	std::vector<idx_t> lo, hi;
+	for(std::size_t k = 0; k != ex.size(); ++k) {
+		out += (k ? "," : "") + std::to_string(ex[k].first) + ":" + std::to_string(ex[k].second);
+		empty = empty || ex[k].first >= ex[k].second;
+		lo.push_back(ex[k].first);
+		hi.push_back(ex[k].second - 1);
+	}
+	if(empty) { return out + ";empty"; }
+	return out + ";" + corner_text<T, 0, R>(s, lo) + ";" + corner_text<T, 0, R>(s, hi);
+}
+// R = rank of what get() yields (0: an element)
+template<class T, int R, class Get> std::string thing_text(Get&& get) {
+	if constexpr(R == 0) {
+		return elem_text<T>(std::forward<Get>(get));
+	} else {
+		auto&& s = get();
+		return view_text<T, R>(s);
+	}
+}
+
 template<class T, int D, class P, bool Full> struct PH;
+
+// declared here, defined in common/c12_heavy.hpp, instantiated explicitly in harness/c12_heavy_part.cpp
+template<class T, int D, class P> struct Heavy {
+	multi::subarray<T, D, P>& v;
+	void convert(std::ostream& os, std::string const& id, int step, std::string const& kind0);
+	void walk(std::ostream& os, std::string const& id, int step, int wn, std::vector<std::string> const& tk);
+};
+// the pointer types of the element_transformed kinds (the same for every rank)
+using TPval = typename decltype(std::declval<multi::subarray<S, 1, S*>&>().element_transformed(f_val{}))::element_ptr;          // tval via & / &&
+using TPvalc = typename decltype(std::declval<multi::subarray<S, 1, S*> const&>().element_transformed(f_val{}))::element_ptr;   // tval via const&
+using TPmem = typename decltype(std::declval<multi::subarray<S, 1, S*>&>().element_transformed(&S::b))::element_ptr;            // tmem
+using TPref = typename decltype(std::declval<multi::subarray<S, 1, S*>&>().element_transformed(f_ref{}))::element_ptr;          // tref
+// X(index, element type, pointer type): every (T, P) a holder can have
+#define C12_HEAVY_TYPES(X) \
+	X(0, S, S*) X(1, Z, Z*) X(2, CD, CD*) X(3, R16, R16*) X(4, Q, Q*) X(5, int, int*) X(6, double, double*) \
+	X(7, long, TPval) X(8, long, TPvalc) X(9, int, TPmem) X(10, double, TPref)
 
 template<class T, class P, bool Full, class X> std::unique_ptr<Any> wrap(X&& x) {
 	constexpr int R = std::decay_t<X>::rank_v;
@@ -115,9 +212,14 @@ template<class T2, bool Full, class X> std::unique_ptr<Any> rewrap(X&& x) {
 	}
 }
 
+// "natural" conversion targets: int -> long, long -> double, double -> float (implicit, value-changing
+// representation), std::complex<double> -> std::complex<float> (explicit only); others: the same type
 template<class T> struct conv_target { using type = T; };
-template<> struct conv_target<int> { using type = long; };        // int -> long   (convertible element type)
-template<> struct conv_target<long> { using type = double; };     // long -> double
+template<> struct conv_target<int> { using type = long; };
+template<> struct conv_target<long> { using type = double; };
+template<> struct conv_target<double> { using type = float; };
+template<> struct conv_target<Z> { using type = ZF; };
+template<class T> struct type_tag { using type = T; };
 
 template<class T, int D, class P, bool Full> struct PH : Any {
 	multi::subarray<T, D, P> v;
@@ -166,20 +268,10 @@ template<class T, int D, class P, bool Full> struct PH : Any {
 			return false;
 		}
 	}
-	void convert(std::ostream& os, std::string const& id, int step) override {
-		using T2 = typename conv_target<T>::type;
-		multi::array<T2, D> arr(v);   // array.hpp:371-435
-		auto sz = dv::tup_to_vec(arr.sizes());
-		os << "C " << id << ' ' << step << " to=" << code<T2>::v << " sizes=" << dv::join(sz.begin(), sz.end()) << " nel=" << arr.num_elements() << '\n';
-		idx_t n = arr.num_elements();
-		for(idx_t k = 0; k != n && k != 64; ++k) {
-			if constexpr(std::is_same_v<T2, long>) {
-				os << "c " << id << ' ' << step << ' ' << k << " V=L" << arr.data_elements()[k] << '\n';
-			} else {
-				os << "c " << id << ' ' << step << ' ' << k << " V=" << show<T2>(arr.data_elements()[k]) << '\n';
-			}
-		}
-	}
+	// conversions and iterator walks live in common/c12_heavy.hpp and are compiled in separate translation units
+	// (harness/c12_heavy_part.cpp, explicit instantiations), because they instantiate most of array.hpp
+	void convert(std::ostream& os, std::string const& id, int step, std::string const& kind) override { Heavy<T, D, P>{v}.convert(os, id, step, kind); }
+	void walk(std::ostream& os, std::string const& id, int step, int wn, std::vector<std::string> const& tk) override { Heavy<T, D, P>{v}.walk(os, id, step, wn, tk); }
 
 	// ---- projections ----
 	// Every projection kind is reached through each value category of the source view, because the library has
@@ -316,6 +408,16 @@ template<class T, int D, class P, bool Full> struct PH : Any {
 		}
 		if(n == "reversed") { return wrap<T, P, Full>(v.reversed()); }
 		if(n == "dropped") { return wrap<T, P, Full>(v.dropped(a[0])); }
+		if(n == "reindexed") { return wrap<T, P, Full>(v.reindexed(a[0])); }
+		if(n == "blocked") {
+			if constexpr(can_slice) { return wrap<T, P, Full>(v.blocked(a[0], a[1])); } else { throw unsupported("blocked: transform_ptr, D>1, assertions on"); }
+		}
+		if(n == "reindexedl") {
+			if constexpr(D >= 2) { if(a.size() == 2) { return wrap<T, P, Full>(v.reindexed(a[0], a[1])); } }
+			if constexpr(D >= 3) { if(a.size() == 3) { return wrap<T, P, Full>(v.reindexed(a[0], a[1], a[2])); } }
+			if constexpr(D >= 4) { if(a.size() == 4) { return wrap<T, P, Full>(v.reindexed(a[0], a[1], a[2], a[3])); } }
+			throw unsupported("reindexed arity");
+		}
 		if constexpr(Full) {
 			if(n == "sliceds") { return wrap<T, P, Full>(v.sliced(a[0], a[1], a[2])); }
 			if(n == "taked") {
